@@ -126,7 +126,9 @@ impl BrakingPoints {
                         self.points.push(BrakingPoint {
                             offset: bp_curr.offset - train_state.dt * speed_limit,
                             speed_limit,
-                            speed_target: bp_curr.speed_target,
+                            // the curve broke through into a zone whose own limit may be below the
+                            // target of the slowdown being braked for
+                            speed_target: bp_curr.speed_target.min(speed_limit),
                         });
                         if bp_curr.speed_limit == speed_points[idx].speed_limit.abs() {
                             break;
